@@ -100,4 +100,51 @@ MPermG(g, h, ismap) ==
 MPermSchema(R, S) == Len(R) = Len(S) /\ \A i \in 1..Len(R) :
    R[i].name = S[i].name /\ R[i].kind = S[i].kind /\ R[i].op = S[i].op /\ R[i].params = S[i].params /\
    IF R[i].kind = "type" THEN MPermT(R[i].t, S[i].t) ELSE MPermE(R[i].e, S[i].e)
+
+\* ------------------------------------------------------------------ operator / occurrence / prelude identities (C09)
+\* contexts in which an operand type can appear; WrapV wraps the document accordingly
+T2(x) == IF x.k \in {"range", "ctl"} THEN [k |-> "paren", t |-> [alts |-> <<x>>]] ELSE x   \* operand position needs a type2
+TRule(n, t) == [name |-> n, kind |-> "type", op |-> "=", params |-> <<>>, t |-> t]
+NoKeyC == [kk |-> "none"]
+BareK == [kk |-> "bare", n |-> "k", cp |-> <<107>>]
+EntC(lo, hi, key, t) == [k |-> "ent", lo |-> lo, hi |-> hi, key |-> key, t |-> t]
+WrapS(ctx, t) ==   \* t is a Type
+  CASE ctx = "top" -> <<TRule("root", t)>>
+    [] ctx = "arr" -> <<TRule("root", [alts |-> <<[k |-> "arr", g |-> [galts |-> <<<<EntC(1, 1, NoKeyC, t)>>>>]]>>])>>
+    [] ctx = "mapval" -> <<TRule("root", [alts |-> <<[k |-> "map", g |-> [galts |-> <<<<EntC(1, 1, BareK, t)>>>>]]>>])>>
+    [] ctx = "generic" -> <<TRule("root", [alts |-> <<[k |-> "ref", n |-> "p", args |-> <<IF Len(t.alts) = 1 THEN t.alts[1] ELSE [k |-> "paren", t |-> t]>>]>>]),
+                            [name |-> "p", kind |-> "type", op |-> "=", params |-> <<"X">>,
+                             t |-> [alts |-> <<[k |-> "arr", g |-> [galts |-> <<<<EntC(1, 1, NoKeyC, [alts |-> <<[k |-> "ref", n |-> "X", args |-> <<>>]>>])>>>>]]>>]]>>
+WrapV(ctx, v) ==
+  CASE ctx = "top" -> v
+    [] ctx \in {"arr", "generic"} -> [k |-> "arr", items |-> <<v>>]
+    [] ctx = "mapval" -> [k |-> "map", pairs |-> <<[key |-> [k |-> "text", cp |-> <<107>>], val |-> v]>>]
+Ty1(x) == [alts |-> <<x>>]
+CtlI(op, a, b) == [k |-> "ctl", op |-> op, t |-> T2(a), arg |-> T2(b)]
+\* occurrence spellings: the surface syntax is part of the schema encoding (field sp): "?" vs "0*1" etc. denote the same bounds
+\* schemas of an identity instance; the equation over the recorded verdicts is IdentHolds
+IdentSchemas(kind, ctx, a, b) ==
+  CASE kind = "choice" -> <<WrapS(ctx, [alts |-> <<a, b>>]), WrapS(ctx, [alts |-> <<b, a>>]), WrapS(ctx, Ty1(a)), WrapS(ctx, Ty1(b))>>
+    [] kind = "and" -> <<WrapS(ctx, Ty1(CtlI("and", a, b))), WrapS(ctx, Ty1(CtlI("within", a, b))), WrapS(ctx, Ty1(a)), WrapS(ctx, Ty1(b))>>
+    [] kind = "ne" -> <<WrapS(ctx, Ty1(CtlI("ne", a, b))), WrapS(ctx, Ty1(a)), WrapS(ctx, Ty1(CtlI("eq", a, b)))>>
+    [] kind = "range" -> <<WrapS(ctx, Ty1([k |-> "range", lo |-> a, hi |-> b, incl |-> TRUE])), WrapS(ctx, Ty1([k |-> "range", lo |-> a, hi |-> b, incl |-> FALSE]))>>
+    [] kind = "prelude" -> <<WrapS(ctx, Ty1(a)), WrapS(ctx, IF a.n \in PreludeBase THEN Ty1(b) ELSE PreludeDef(a.n))>>
+IdentHolds(kind, oks, a, b, v) ==
+  CASE kind = "choice" -> oks[1] = oks[2] /\ oks[1] = (oks[3] \/ oks[4])
+    [] kind = "and" -> oks[1] = oks[2] /\ oks[1] = (oks[3] /\ oks[4])
+    [] kind = "ne" -> oks[1] = (oks[2] /\ ~oks[3])
+    [] kind = "range" -> IF b.k = "lit" /\ VEq(b.v, v) THEN ~oks[2] ELSE oks[1] = oks[2]
+    [] kind = "prelude" -> oks[1] = oks[2]
+\* base prelude names and the major-type spelling Appendix D gives them
+MajorT(mt, has, n) == [k |-> "major", mt |-> mt, has |-> has, num |-> NatOfSmall(n)]
+PreludeBaseDef(n) ==
+  CASE n = "uint" -> MajorT(0, FALSE, 0) [] n = "nint" -> MajorT(1, FALSE, 0) [] n = "bstr" -> MajorT(2, FALSE, 0) [] n = "tstr" -> MajorT(3, FALSE, 0)
+    [] n = "false" -> MajorT(7, TRUE, 20) [] n = "true" -> MajorT(7, TRUE, 21) [] n = "nil" -> MajorT(7, TRUE, 22) [] n = "undefined" -> MajorT(7, TRUE, 23)
+    [] n = "float16" -> MajorT(7, TRUE, 25) [] n = "float32" -> MajorT(7, TRUE, 26) [] n = "float64" -> MajorT(7, TRUE, 27)
+    [] n = "any" -> [k |-> "any"]
+\* occurrence identity: two groups that differ only in how an occurrence is spelled have the same bounds, hence the same AST here;
+\* the event records the two spellings and the trace specification checks they denote the same (lo, hi)
+OccBounds(sp) ==
+  CASE sp = "?" -> <<0, 1>> [] sp = "*" -> <<0, -1>> [] sp = "+" -> <<1, -1>>
+    [] sp = "0*1" -> <<0, 1>> [] sp = "0*" -> <<0, -1>> [] sp = "1*" -> <<1, -1>> [] sp = "" -> <<1, 1>> [] sp = "1*1" -> <<1, 1>>
 =============================================================================
